@@ -28,6 +28,12 @@ CLAIMED = {
    design_ref="DESIGN.md 4.8, 5 (C19)",
    note="Trusted base: the polynomial normaliser in sa/rules/length.py (~60 lines), CPython's ast, Python integer semantics; pickling is persistent.Persistent's.",
    technique="polynomial canonical form (ring identity) over the method's AST, structural match of the cell methods"),
+ "C17": dict(
+   category="other",
+   text="Path-sensitive dataflow over the clang CFG of every allocating function of all 22 translation units: every allocation result is NULL-tested before any dereference / stealing store (ALLOC-CHECKED), a successful BTree_Realloc result is stored back before any return and never freed (REALLOC-DISC), freed member pointers are reset (FREE-DISC), size fields are not raised before the backing allocation succeeded (SIZE-BEFORE-ALLOC), raw malloc/realloc/free stay inside wrappers and confirmed owners, wrappers raise MemoryError. Covers every failure exit statically, which a test can reach only with fault injection; does not decide container soundness after the n-th failure of an arbitrary history.",
+   design_ref="DESIGN.md 4.7, 5 (C17)",
+   note="Trusted: clang AST, sa/ dataflow, the table of allocating / NULL-intolerant CPython APIs in sa/rules/alloc.py. The allocation-failure hook named in the property is for dynamic techniques and is not used.",
+   technique="dataflow over clang AST CFGs: unchecked-NULL propagation, realloc store-back and free/reset typestate, who-may-call table"),
 }
 
 NA_PENDING = "check not built yet (engine under construction); see DESIGN.md section 11"
